@@ -151,7 +151,7 @@ def guard_rules(ck, prog):
     # (1) the number of FRI layers carried by the proof is compared with the number the options imply before the layers are consumed
     vc = prog.fn("winter_verifier::channel::VerifierChannel::new")
     gs = mg.of(vc)
-    m = [g for g in gs if g.fn is vc and g.kind == "switch" and
+    m = [g for g in gs if g.kind == "switch" and
          V.match_cmp(g, ("!=",), V.has_callee("FriProof::num_layers"), V.has_callee("FriOptions::num_fri_layers"))]
     V.require(ck, "G", "VerifierChannel::new:fri-layer-count", m,
               "reject iff the proof's number of FRI layers differs from the number implied by the options and the LDE domain size "
